@@ -1178,7 +1178,7 @@ func TestCheck(t *testing.T) {
 	nT := run.N(240, 4000)
 	nN := run.N(120, 3000)
 	nF := run.N(96, 2400)
-	nR := run.N(30000, 1600000)
+	nR := run.N(24000, 1600000)
 	nP := run.N(1500, 100000)
 	run.Each(nT+nN+nF+nR+nP, 1, func(i int) {
 		if run.Violations() >= 6 {
